@@ -5,7 +5,105 @@ from ..gen.checks import GenCheck, COMMON_ASSUMPTIONS
 ENGINE = "dgen+refsem"
 TECHNIQUE = "runtime monitoring: random well-formed designs emitted as real Transactron objects, simulated under hostile input valuations; per-cycle oracle = independent reference semantics over sampled run/data/witness signals"
 CHECK = GenCheck("C02", ("C02:",), {"max_conflicts": 4, "p_lifted_priority": 0.3, "p_xmod_conflict": 0.5, "p_same_trans_conflict": 0.4, "p_case_after_if": 0.4}, scheds=("eager", "rr"), library=True, suite=True, nontrivial_counter="conflict_pairs_both_sides_enabled_cycles")
-shards, run_shard = CHECK.shards, CHECK.run_shard
+
+
+# --- contradiction shards (seeded defect C02f): add_conflict declared between two bodies that are ALSO declared simultaneous() -------------------
+# The only outcomes compatible with C02 are "rejected at elaboration" or "accepted and the two ends never run in one cycle".
+import itertools
+import random
+
+# flip_sim None = control design without the simultaneous() declaration (accepted: exercises the simulated branch of the oracle on a correct tree)
+SIMCONF_CONFIGS = list(itertools.product(("trans", "methods"), ("UNDEFINED", "LEFT", "RIGHT"), (False, True), (False, True, None)))
+
+
+def run_simconf(spec, rec):
+    from amaranth import Elaboratable, Signal
+    from amaranth.sim import Simulator
+    from transactron import TModule, Method, Transaction, def_method
+    from transactron.core import TransactronContextElaboratable, Priority
+
+    for i in range(spec["first"], spec["first"] + spec["n"]):
+        where, prio, flip_conf, flip_sim = SIMCONF_CONFIGS[i % len(SIMCONF_CONFIGS)]
+        rnd = random.Random(f"C02:simconf:{spec['seed']}:{i}")
+        case = {"simconf": i, "conflict_on": where, "priority": prio, "conflict_declared_from_second": flip_conf, "simultaneous_declared_from_second": flip_sim}
+
+        class Top(Elaboratable):
+            def __init__(self):
+                self.ma, self.mb = Method(), Method()
+                self.ra, self.rb = Signal(), Signal()
+                self.ma_run, self.mb_run, self.ta_run, self.tb_run = Signal(), Signal(), Signal(), Signal()
+
+            def elaborate(self, platform):
+                m = TModule()
+
+                @def_method(m, self.ma)
+                def _():
+                    m.d.comb += self.ma_run.eq(1)
+
+                @def_method(m, self.mb)
+                def _():
+                    m.d.comb += self.mb_run.eq(1)
+
+                ta, tb_ = Transaction(name="ta"), Transaction(name="tb")
+                with ta.body(m, ready=self.ra):
+                    m.d.comb += self.ta_run.eq(1)
+                    self.ma(m)
+                with tb_.body(m, ready=self.rb):
+                    m.d.comb += self.tb_run.eq(1)
+                    self.mb(m)
+                x, y = (ta, tb_) if where == "trans" else (self.ma, self.mb)
+                if flip_conf:
+                    x, y = y, x
+                x.add_conflict(y, Priority[prio])
+                if flip_sim is not None:
+                    s1, s2 = (tb_, ta) if flip_sim else (ta, tb_)
+                    s1.simultaneous(s2)
+                keep = Signal()
+                m.d.sync += keep.eq(~keep)
+                return m
+
+        top = Top()
+        try:
+            sim = Simulator(TransactronContextElaboratable(top))
+        except Exception as ex:  # rejected at elaboration: compatible with the property
+            rec.count("simconf_designs_rejected_at_elaboration")
+            rec.state(f"simconf:rejected:{type(ex).__name__}")
+            rec.check("C02:conflict_between_simultaneous_bodies_rejected_or_never_together", True, case=case)
+            continue
+        sim.add_clock(1e-6)
+        rec.count("simconf_designs_accepted" if flip_sim is not None else "simconf_control_designs_simulated")
+        hist = []
+
+        async def tb(ctx):
+            for cyc in range(spec["cycles"]):
+                a, b = (1, 1) if rnd.random() < 0.5 else (rnd.getrandbits(1), rnd.getrandbits(1))
+                ctx.set(top.ra, a)
+                ctx.set(top.rb, b)
+                await ctx.delay(1e-9)
+                runs = {k: ctx.get(getattr(top, k)) for k in ("ta_run", "tb_run", "ma_run", "mb_run")}
+                hist.append((a, b, runs))
+                del hist[:-6]
+                both = (runs["ta_run"] and runs["tb_run"]) if where == "trans" else (runs["ma_run"] and runs["mb_run"])
+                rec.check("C02:conflict_between_simultaneous_bodies_rejected_or_never_together", not both, case=case,
+                          detail={"last_cycles(ready_a,ready_b,runs)": hist[-4:]})
+                rec.count("simconf_cycles")
+                if rec.viol_total:
+                    return
+                await ctx.tick()
+
+        sim.add_testbench(tb)
+        sim.run()
+
+
+def shards(tier, seed):
+    n = 2 if tier == "quick" else 12
+    return CHECK.shards(tier, seed) + [{"seed": seed, "simconf": True, "first": i * 18, "n": 18, "cycles": 40 if tier == "quick" else 200} for i in range(n)]
+
+
+def run_shard(spec, rec):
+    if spec.get("simconf"):
+        return run_simconf(spec, rec)
+    return CHECK.run_shard(spec, rec)
 ASSUMPTIONS = COMMON_ASSUMPTIONS
-RULE = ("[plus the repository's own tests run with the transaction sanitizer attached to every simulator they create - two files in the quick tier, the whole suite in the thorough tier; test outcomes are not verdicts] [plus a realistic second workload: library components (FIFOs, stack, connectors, memories, CAM, allocators, metrics) under the hostile component driver with the design-independent transaction sanitizer vf/txsan.py attached] random well-formed designs with 0-4 add_conflict relations of every priority between transactions, methods and mixed pairs (ends reached directly, through nested calls and aliases; ends in different alternatives of one structure; first body of a module under its first If and a later body in a Case of a later module-level Switch; conflicts with uncalled methods), both schedulers; oracle: both ends never run in one cycle; non-trivial design = some cycle in which transactions reaching both ends were fully enabled; distinct = (design shape signature, scheduler)")
+RULE = ("[plus contradiction shards: add_conflict of every priority and orientation declared on two transactions (or on the methods they call) that are also declared simultaneous(); oracle: rejected at elaboration, or accepted and the two ends never run in one cycle] [plus the repository's own tests run with the transaction sanitizer attached to every simulator they create - two files in the quick tier, the whole suite in the thorough tier; test outcomes are not verdicts] [plus a realistic second workload: library components (FIFOs, stack, connectors, memories, CAM, allocators, metrics) under the hostile component driver with the design-independent transaction sanitizer vf/txsan.py attached] random well-formed designs with 0-4 add_conflict relations of every priority between transactions, methods and mixed pairs (ends reached directly, through nested calls and aliases; ends in different alternatives of one structure; first body of a module under its first If and a later body in a Case of a later module-level Switch; conflicts with uncalled methods), both schedulers; oracle: both ends never run in one cycle; non-trivial design = some cycle in which transactions reaching both ends were fully enabled; distinct = (design shape signature, scheduler)")
 MINIMA = {"quick": {"cycles": 8000, "cond:C02:add_conflict_ends_never_run_together": 5000, "conflict_pairs_both_sides_enabled_cycles": 300, "distinct": 15}, "thorough": {"cycles": 1000000, "distinct": 400}}
